@@ -341,6 +341,11 @@ func c04exec(c *h.Ctx, cs *h.Case) {
 func c04gen(c *h.Ctx, yield func(*h.Case)) {
 	r := c.Rng
 	val := 0
+	// witnesses of repaired defects and of seeded changes that were once missed run first
+	for _, cs := range fix.LoadCorpus("C04") {
+		c.Count("class=corpus")
+		yield(cs)
+	}
 	mk := func(class string, root bool, k int, body func(add func(ty int, src string))) {
 		cs := &h.Case{Class: class}
 		rs := "inner"
